@@ -1,5 +1,5 @@
 """C16 - atomic read-modify-write operations are indivisible (parse.c to_assign / ND_CAS / ND_EXCH, stdatomic.h)."""
-import os, json, hashlib
+import os, json, hashlib, shutil
 from .framework import *
 
 PROPERTY = 'C16'
@@ -25,7 +25,8 @@ TRUSTED_BASE = [
     'it works on parse trees, not tokens: tied on every run by printing each generated tree as C text (the printer is part of the Lean '
     'driver, lean/ChibiVerif/Driver/C16QualCmd.lean) and comparing the declared types at every level (each is_atomic flag) and the shape '
     'of the update node with the AST dump of the hooked chibicc (-verif-dump-ast); the specification lean/ChibiVerif/Spec/C16QualSpec.lean '
-    '(C11 6.2.5/6.3.2.1/6.5.2-6.5.6/6.7.2.4/6.7.3/6.7.6/6.7.8, C23 6.7.2.5 for typeof) is the author\'s reading of the standard',
+    '(C11 6.2.5/6.3.2.1/6.5.2-6.5.6/6.7.2.4/6.7.3/6.7.6/6.7.8, C23 6.7.2.5 for typeof) is the author\'s reading of the standard, validated on '
+    'every run against clang-14 as an independent implementation (atomic instruction emitted for the update iff the specification says the lvalue is atomic)',
     'hand-written model lean/ChibiVerif/Model/C16Typing.lean of the ND_CAS / ND_EXCH guards of type.c, run on every ND_CAS / ND_EXCH node '
     'of the dumped programs and on described operand types whose rejection message must match; the shared byte-exact code-generation '
     'model lean/ChibiVerif/Model/Codegen.lean (casArm, exchArm, load, store) is tied by property C20\'s assembly-text equality and here '
@@ -1103,6 +1104,8 @@ QUAL_MSG = [
     ('variable declared void', {'declared-void'}), ('undefined variable', {'undefined-variable'}),
 ]
 
+CLANG = shutil.which('clang-14') or shutil.which('clang')
+
 def qual_cases(ctx):
     from . import c16_qualgen as G
     n = 400 if not ctx.thorough else 6000
@@ -1124,6 +1127,7 @@ def qualifier(ctx, corr, cases=None, keep_going=False):
         return
     work = os.path.join(ctx.scratch, 'qual')
     os.makedirs(work, exist_ok=True)
+    oracle_budget = [len(cases) if ctx.thorough else 260]
     todo = []
     for i, ((case, _), line) in enumerate(zip(cases, out)):
         f = dict(x.split('=', 1) for x in line.split('\t') if '=' in x)
@@ -1172,6 +1176,25 @@ def qualifier(ctx, corr, cases=None, keep_going=False):
         rf = dict(x.split('=', 1) for x in r.split('\t') if '=' in x)
         rpath = rf.get('path', '?')
         ncas = len(re.findall(r'^\s*lock cmpxchg', open(asm).read(), re.M)) if os.path.exists(asm) else -1
+        # specification vs an independent implementation of the C semantics (validates Spec/C16QualSpec.lean, DESIGN 3.3):
+        # clang-14 compiles the same text; where it accepts, its code for f contains an atomic instruction iff the spec says
+        # the updated lvalue is atomic
+        if CLANG and (spec.startswith('lv')) and oracle_budget[0] > 0:
+            oracle_budget[0] -= 1
+            rcc, oc, ec = sh([CLANG, '-std=gnu2x', '-w', '-S', '-O0', '-o', '-', src], timeout=60)
+            if rcc != 0:
+                corr.count('spec-oracle:clang-rejects')
+            else:
+                mm = re.search(r'^f:(.*?)\.cfi_endproc', oc, re.S | re.M)
+                cbody = mm.group(1) if mm else oc
+                catomic = bool(re.search(r'\block\b|\bxchg|cmpxchg|__atomic', cbody))
+                corr.count('spec-oracle:agree' if catomic == atomic_lv else 'spec-oracle:DIFFER')
+                if catomic != atomic_lv:
+                    corr.disagreements.append({'kind': 'specification (Spec/C16QualSpec.lean) and clang-14 differ on whether the updated lvalue is atomic',
+                                               'input': ctext, 'spec': spec, 'clang': 'atomic instruction in f' if catomic else 'no atomic instruction in f', 'case': case})
+                    if keep_going and len(corr.disagreements) < 6:
+                        continue
+                    return
         # specification vs implementation (the property itself)
         if atomic_lv and not rpath.startswith('cas:'):
             corr.violations.append({'what': 'an lvalue of _Atomic type is updated by a plain load-operate-store sequence, not by the compare-and-swap loop',
@@ -1262,7 +1285,7 @@ def correspond(ctx, corr):
                  'declared type of every object (every level, every is_atomic flag) and the shape of the update node (compare-and-swap loop with its '
                  'width / plain member / plain deref / plain inc-dec / diagnostic) must equal the model\'s; independently the specification '
                  '(Spec/C16QualSpec.lean run through the driver) decides whether the lvalue is atomic in C and then the real update node must be the '
-                 'loop of the object\'s width with exactly one lock cmpxchg in the assembly, or a located diagnostic.  (2) operator semantics: Op.fn == gcc '
+                 'loop of the object\'s width with exactly one lock cmpxchg in the assembly, or a located diagnostic; the specification itself is validated against clang-14 on the same texts (where clang accepts, its code for f contains a lock-prefixed / xchg / __atomic instruction iff the specification says the lvalue is atomic).  (2) operator semantics: Op.fn == gcc '
                  '== snapshot on boundary+random operands.  (3) stress: N in 2..16 pthreads x 10^5 iterations per phase on static / automatic / heap / '
                  'member objects, released together by a start barrier; final object bits vs the linearizable prediction computed by the model '
                  '(drv_c16 fold); returned values of atomic_fetch_add/sub, x++, ++x must be pairwise distinct and cover [init, init+N*K); exchange '
